@@ -988,6 +988,30 @@ class Inliner:
             recv, args_ = args_[0], args_[1:]          # member operator: the left operand is the object
         return f["params"], nb, recv, f["qn"], False, f["key"], args_
 
+    def bind_function_arguments(self, body_i, params, args, pmap):
+        """A parameter that receives the name of a function (`read_table(dec, table, read_table_string)`): calls through
+        the parameter inside the expanded body are calls of that function."""
+        fmap = {}
+        for p_, a_ in zip(params, args):
+            u_ = unwrap(a_)
+            while isinstance(u_, dict) and u_.get("k") in ("Cast", "Un") and (u_.get("k") == "Cast" or u_.get("op") == "&"):
+                u_ = unwrap(u_.get("e"))
+            if isinstance(u_, dict) and u_.get("k") == "Ref" and u_.get("d") == "func" and isinstance(u_.get("callee"), dict):
+                fmap[pmap[p_.get("id")]] = u_["callee"]
+        if not fmap:
+            return False
+        hit = False
+        for n in walk(body_i):
+            if n.get("k") == "Call" and isinstance(n.get("fn"), dict) and not n.get("callee"):
+                f_ = unwrap(n["fn"])
+                while isinstance(f_, dict) and f_.get("k") in ("Cast", "Un") and (f_.get("k") == "Cast" or f_.get("op") == "*"):
+                    f_ = unwrap(f_.get("e"))
+                if isinstance(f_, dict) and f_.get("k") == "Ref" and f_.get("id") in fmap:
+                    n["callee"] = dict(fmap[f_["id"]])
+                    del n["fn"]
+                    hit = True
+        return hit
+
     def bind(self, params, args, pmap, line):
         decls = []
         for p, a in zip(params, args):
@@ -1097,10 +1121,25 @@ class Inliner:
         params, body, recv, name, is_lam, cid, args = parts
         if len(args) < len(params):
             return [s]
+        prefix = []
+        if isinstance(s, dict) and s.get("k") == "Decl" and len(s.get("vars", [])) == 1 and \
+                sum(1 for x in walk(body) if x.get("k") == "Return" and x.get("e") is not None) > 1 and not s["vars"][0].get("ref") and \
+                not (s["vars"][0].get("t") or "").startswith("const "):
+            # `T x = helper(..);` with a helper that returns from several places: declare x first, every return stores into it
+            v = s["vars"][0]
+            v0 = {kk: vv for kk, vv in v.items() if kk != "init"}
+            prefix = [{"k": "Decl", "l": s.get("l"), "vars": [v0]}]
+
+            def K(e, v=v, s=s):
+                if e is None:
+                    raise NoInline("void result initialises a variable")
+                return [{"k": "Bin", "op": "=", "l": s.get("l"), "t": v.get("t"),
+                         "lhs": {"k": "Ref", "d": "local", "id": v.get("id"), "n": v.get("n"), "t": v.get("t"), "l": s.get("l")}, "rhs": e}]
         if recv is not None and unwrap(recv).get("k") != "This" and path(recv) is None:
             self.note(cid, is_lam, False)
             return [s]
         body_i, pmap = self.instantiate(params, body, recv)
+        rebound = self.bind_function_arguments(body_i, params, args, pmap)
         try:
             sts, ft = self.tail(ir.stmts(body_i), K, void_ok)
         except NoInline as ex:
@@ -1113,7 +1152,7 @@ class Inliner:
         if ft:
             sts = sts + K(None)
         self.note(cid, is_lam, True)
-        res = self.bind(params, args, pmap, call.get("l")) + sts
+        res = prefix + self.bind(params, args, pmap, call.get("l")) + sts
         # a lambda handed in as an argument is now a local with a known body: calls through the parameter can be
         # expanded in turn (bounded by the nesting depth)
         new_lams = {}
@@ -1128,6 +1167,9 @@ class Inliner:
         if new_lams and len(stack) < MAX_DEPTH + 2:
             self._lambdas.update(new_lams)
             res = self.tx_block(res, stack + ("<lambda-arg>",), fn)
+        elif rebound and len(stack) < MAX_DEPTH + 2:
+            # calls through a function parameter became direct calls: they can be expanded in turn
+            res = self.tx_block(res, stack + ("<function-arg>",), fn)
         return res
 
     def _if_site(self, n, stack, fn):
@@ -2009,10 +2051,15 @@ def scalar_replace_aggregates(body, facts):
     parents = {}
     for n, ps in ir.walk_with_parents(body):
         if n.get("k") == "Ref" and n.get("d") == "local":
-            parents.setdefault(n.get("id"), []).append((n, ps[-1] if ps else None))
+            # the field access may sit around value-preserving wrappers (`T(x).f` after a by-value return was expanded)
+            chain = list(ps)
+            while chain and (chain[-1].get("k") == "Cast" or (chain[-1].get("k") == "Construct" and chain[-1].get("copymove") and len(chain[-1].get("args", [])) == 1)):
+                chain.pop()
+            parents.setdefault(n.get("id"), []).append((n, chain[-1] if chain else None))
     for d, v, r, elems, constructed in decls:
         uses = parents.get(v.get("id"), [])
-        if not uses or not all(isinstance(p_, dict) and p_.get("k") == "Member" and p_.get("field") and unwrap(p_.get("base")) is u_ for u_, p_ in uses):
+        if not uses or not all(isinstance(p_, dict) and p_.get("k") == "Member" and p_.get("field") and
+                               any(x_ is u_ for x_ in walk(p_.get("base"))) and ir.unwrap_all_casts(unwrap(p_.get("base"))) is not None for u_, p_ in uses):
             continue
         names = [f_["n"] for f_ in r["fields"]]
         if not all(p_.get("n") in names for _, p_ in uses):
